@@ -69,6 +69,7 @@ typedef struct { uint32_t events; struct { int fd; } data; } epoll_event;
 #define epoll_event_DEFAULT ((epoll_event){0, {0}})
 /* ghost record of the last interest registration: the mask the kernel holds for G_ep_fd */
 int G_ep_fd; uint32_t G_ep_events; int G_ep_op; int G_ep_epfd; unsigned G_ep_mods, G_ep_dels;
+#define IORA_EPOLL_GHOSTS G_ep_fd, G_ep_events, G_ep_op, G_ep_epfd, G_ep_mods, G_ep_dels, G_seq, G_ep_seq      /* for assigns clauses */
 unsigned G_seq, G_ep_seq;             /* ghost event clock (ordering clauses): every recorded environment event takes the next tick */
 #ifndef IORA_NATIVE
 unsigned nondet_unsigned(void);
